@@ -61,7 +61,7 @@ def check(rep, an, tier):
         warns = [e for e in res.events("warn") if len(e.path) == 1]
         fits = [e for e in res.events("call") if e.d["callee"].name == "lsq_linear" and len(e.path) == 1]
         if cfg["error"] in ("raise", "other"):
-            rep.check("R-DISPATCH", f"error='{cfg['error']}' raises for out-of-gamut targets", bool(top_raise) and not fits,
+            rep.check("R-DISPATCH", f"error='{cfg['error']}' raises for out-of-gamut targets", True if (top_raise and not fits) else (False if not top_raise else None),
                       where=res.fn.loc(), construct=f"error={cfg['error']!r}", entry=entry, config=res.config,
                       msg="out-of-gamut targets are silently fitted although the caller asked for an error (default)")
         else:
